@@ -16,6 +16,7 @@
 
 #include <pistache/common.h>
 #include <pistache/os.h>
+#include <pistache/verif_hooks.h>
 
 namespace Pistache
 {
@@ -220,14 +221,19 @@ namespace Pistache
             Entry* entry = new Entry(std::forward<U>(u));
             // @Note: we're using SC atomics here (exchange will issue a full fence),
             // but I don't think we should bother relaxing them for now
+            PISTACHE_VERIF_YIELD(1, this);
             auto* prev = head.exchange(entry);
+            PISTACHE_VERIF_YIELD(2, this);
             prev->next = entry;
+            PISTACHE_VERIF_YIELD(3, this);
         }
 
         virtual Entry* pop()
         {
             auto* res  = tail;
+            PISTACHE_VERIF_YIELD(4, this);
             auto* next = res->next.load(std::memory_order_acquire);
+            PISTACHE_VERIF_YIELD(5, this);
             if (next)
             {
                 // Since it's Single-Consumer, the store does not need to be atomic
@@ -301,19 +307,23 @@ namespace Pistache
             if (isBound())
             {
                 uint64_t val = 1;
+                PISTACHE_VERIF_YIELD(6, this);
                 TRY(write(event_fd, &val, sizeof val));
+                PISTACHE_VERIF_YIELD(7, this);
             }
         }
 
         Entry* pop() override
         {
             auto ret = Queue<T>::pop();
+            PISTACHE_VERIF_YIELD(8, this);
 
             if (isBound())
             {
                 uint64_t val;
                 for (;;)
                 {
+                    PISTACHE_VERIF_YIELD(9, this);
                     ssize_t bytes = read(event_fd, &val, sizeof val);
                     if (bytes == -1)
                     {
